@@ -122,7 +122,10 @@ static void vh_end(void) {
 #define OP(s) (!strcmp(op, s))
 static const char *vh_step(const vh_step_t *st, vh_sb *ret, vh_sb *state) {
     const char *op = st->op, *inv;
+    static unsigned nth;
 
+    /* adversarial prelude: whatever an earlier, unrelated call left in errno must not matter */
+    errno = (nth++ & 1) ? ERANGE : EINTR;
     if (OP("parse")) {
         size_t n; unsigned char *t = vh_bytes(st->args[0], &n, 1);
         set_lookup(st->args[1]);
